@@ -226,7 +226,9 @@ def impl_multi(case):
         q = l[2:2 + n]
         nsc = l[2 + n]
         script, l = decode_actions(nsc, l[3 + n:])
-        p = make_port(0, 0, script, {'sleeps': 0, 'taken': []})       # a device double: its _receive follows the script (may close itself)
+        pst = {'sleeps': 0, 'taken': []}
+        p = make_port(0, 0, script, pst)       # a device double: its _receive follows the script (may close itself)
+        p.state_ = pst
         for x in q:
             p._messages.append(mkmsg(x))
         if c:
@@ -250,11 +252,15 @@ def impl_multi(case):
         for _ in range(k):
             st['n'] = 0
             deliverable = bool(mp._messages) or any((not p.closed) and p._messages for p in subs)
+            own_empty = not mp._messages
+            asked_before = [(p, p.state_.get('calls', 0)) for p in subs if not p.closed]
             try:
                 m = mp.receive(block=bool(block))
                 out += [1, msgid(m)]
                 if deliverable and st['n'] > 0 and fail is None:
                     fail = ('multiport-slow', 'MultiPort.receive slept %d times although a message was deliverable' % st['n'])
+                if m is None and deliverable and fail is None:
+                    fail = ('multiport-missed', 'MultiPort.receive(block=%r) returned None although a message was deliverable (use number %d of this MultiPort)' % (bool(block), _ + 1))
                 if not block and st['n'] > 0 and fail is None:
                     fail = ('multiport-nonblocking-slept', 'MultiPort.receive(block=False) slept %d time(s)' % st['n'])
             except Hang:
@@ -263,6 +269,13 @@ def impl_multi(case):
                     fail = ('multiport-hangs', 'MultiPort.receive(block=%r) never returned although %s' % (bool(block), 'a message was deliverable' if deliverable else 'it must not wait'))
             except Exception as e:  # noqa: BLE001
                 out += [3, core.exn_code(e)]
+            # a receive that hands out nothing (or never returns) must at least have asked every open sub-port's device: a message is
+            # deliverable when the device would hand it over on being asked
+            if fail is None and own_empty and out[-2:] in ([1, -1], [3, 13]):
+                idle = [i for i, (p, c) in enumerate(asked_before) if p.state_.get('calls', 0) == c]
+                if idle:
+                    fail = ('multiport-does-not-ask', 'MultiPort.receive(block=%r) (use number %d) came back empty-handed without asking the device of %d open sub-port(s)'
+                            % (bool(block), _ + 1, len(idle)))
             # a sub-port that closes itself inside a poll has taken its last messages in during that poll; the sweep hands all of them on,
             # for the MultiPort will not look at a closed port again
             stranded = [(i, [msgid(x) for x in p._messages]) for i, p in enumerate(subs) if p.was_open and p.closed and p._messages]
